@@ -51,6 +51,7 @@ class StreamableHTTPTransport(Transport):
         # Request handling
         self._outgoing_task: Optional[asyncio.Task] = None
         self._request_semaphore = asyncio.Semaphore(self.max_concurrent_requests)
+        self._routed_messages = 0  # messages delivered to the application so far
 
         # Memory streams for chuk_mcp message API
         self._incoming_send: Optional[MemoryObjectSendStream] = None
@@ -210,72 +211,23 @@ class StreamableHTTPTransport(Transport):
                         self._session_id = response.headers["mcp-session-id"]
                         logger.debug(f"Updated session ID: {self._session_id}")
 
-                    content_type = response.headers.get("content-type", "")
+                    # Turn the body into messages on the read stream
+                    routed_before = self._routed_messages
+                    await self._handle_response_body(response, message_id)
 
-                    if "application/json" in content_type:
-                        # Immediate JSON response
-                        try:
-                            response_data = response.json()
-                            logger.debug(
-                                f"Got immediate JSON response for {message_id}"
-                            )
-                            await self._route_response(response_data)
-                        except json.JSONDecodeError as e:
-                            logger.error(f"Failed to parse JSON response: {e}")
-                            error_response = {
-                                "jsonrpc": "2.0",
-                                "id": message_id,
-                                "error": {"code": -32700, "message": "Parse error"},
-                            }
-                            await self._route_response(error_response)
-
-                    elif "text/event-stream" in content_type:
-                        # SSE streaming response
-                        logger.debug(f"Processing SSE response for {message_id}")
-                        await self._process_sse_response(response, message_id)
-                    else:
-                        # Unexpected content type - try to parse as JSON anyway
-                        logger.debug(f"Unexpected content type: {content_type}")
-                        try:
-                            # Try to read the response body
-                            response_text = response.text
-
-                            # Empty response (like 202 Accepted with no body)
-                            if not response_text:
-                                logger.debug(f"Empty response body for {message_id}")
-                                # For notifications, this is fine
-                                if not message_id:
-                                    return
-                                # For requests, send an empty success response
-                                success_response = {
-                                    "jsonrpc": "2.0",
-                                    "id": message_id,
-                                    "result": {},
-                                }
-                                await self._route_response(success_response)
-                                return
-
-                            # If it looks like SSE, process it as SSE
-                            if response_text.startswith(
-                                "event:"
-                            ) or response_text.startswith("data:"):
-                                await self._process_sse_text(response_text, message_id)
-                            else:
-                                # Try JSON parsing
-                                response_data = json.loads(response_text)
-                                await self._route_response(response_data)
-                        except Exception as e:
-                            logger.debug(f"Could not parse response: {e}")
-                            # For empty 202 responses, don't treat as error
-                            if response.status_code == 202:
-                                logger.debug(f"202 Accepted for {message_id}")
-                                return
-                            error_response = {
-                                "jsonrpc": "2.0",
-                                "id": message_id,
-                                "error": {"code": -32603, "message": str(e)},
-                            }
-                            await self._route_response(error_response)
+                    # A request must always get a terminal message: if the body carried
+                    # no JSON-RPC message at all (empty or malformed), synthesise one
+                    if message_id is not None and self._routed_messages == routed_before:
+                        logger.debug(f"No JSON-RPC message in response for {message_id}")
+                        error_response = {
+                            "jsonrpc": "2.0",
+                            "id": message_id,
+                            "error": {
+                                "code": -32603,
+                                "message": "No valid JSON-RPC message in HTTP response",
+                            },
+                        }
+                        await self._route_response(error_response)
 
                 except asyncio.TimeoutError:
                     logger.error(f"Timeout for {message_id}")
@@ -310,6 +262,75 @@ class StreamableHTTPTransport(Transport):
             import traceback
 
             traceback.print_exc()
+
+    async def _handle_response_body(self, response: httpx.Response, message_id) -> None:
+        """Route the messages carried by a successful HTTP response."""
+        content_type = response.headers.get("content-type", "")
+
+        if "application/json" in content_type:
+            # Immediate JSON response
+            try:
+                response_data = response.json()
+                logger.debug(
+                    f"Got immediate JSON response for {message_id}"
+                )
+                await self._route_response(response_data)
+            except json.JSONDecodeError as e:
+                logger.error(f"Failed to parse JSON response: {e}")
+                error_response = {
+                    "jsonrpc": "2.0",
+                    "id": message_id,
+                    "error": {"code": -32700, "message": "Parse error"},
+                }
+                await self._route_response(error_response)
+
+        elif "text/event-stream" in content_type:
+            # SSE streaming response
+            logger.debug(f"Processing SSE response for {message_id}")
+            await self._process_sse_response(response, message_id)
+        else:
+            # Unexpected content type - try to parse as JSON anyway
+            logger.debug(f"Unexpected content type: {content_type}")
+            try:
+                # Try to read the response body
+                response_text = response.text
+
+                # Empty response (like 202 Accepted with no body)
+                if not response_text:
+                    logger.debug(f"Empty response body for {message_id}")
+                    # For notifications, this is fine
+                    if not message_id:
+                        return
+                    # For requests, send an empty success response
+                    success_response = {
+                        "jsonrpc": "2.0",
+                        "id": message_id,
+                        "result": {},
+                    }
+                    await self._route_response(success_response)
+                    return
+
+                # If it looks like SSE, process it as SSE
+                if response_text.startswith(
+                    "event:"
+                ) or response_text.startswith("data:"):
+                    await self._process_sse_text(response_text, message_id)
+                else:
+                    # Try JSON parsing
+                    response_data = json.loads(response_text)
+                    await self._route_response(response_data)
+            except Exception as e:
+                logger.debug(f"Could not parse response: {e}")
+                # For empty 202 responses, don't treat as error
+                if response.status_code == 202:
+                    logger.debug(f"202 Accepted for {message_id}")
+                    return
+                error_response = {
+                    "jsonrpc": "2.0",
+                    "id": message_id,
+                    "error": {"code": -32603, "message": str(e)},
+                }
+                await self._route_response(error_response)
 
     async def _process_sse_response(
         self, response: httpx.Response, message_id: str
@@ -447,6 +468,8 @@ class StreamableHTTPTransport(Transport):
 
             # Create JSON-RPC message
             message = JSONRPCMessage.model_validate(response_data)  # type: ignore[attr-defined]
+            if message.method is None and message.result is None and message.error is None:
+                raise ValueError("not a JSON-RPC message")
 
             # Check if this is a response (has id but no method)
             if hasattr(message, "id") and message.id and not hasattr(message, "method"):
@@ -456,12 +479,14 @@ class StreamableHTTPTransport(Transport):
                     future = self._pending_requests.pop(message_id)
                     if not future.done():
                         future.set_result(response_data)
+                        self._routed_messages += 1
                         logger.debug(f"Completed pending request {message_id}")
                         return
 
             # Otherwise route to incoming stream
             if self._incoming_send:
                 await self._incoming_send.send(message)
+                self._routed_messages += 1
                 logger.debug(
                     f"Routed message to incoming stream: {message.method or 'response'}"
                 )
